@@ -136,6 +136,18 @@ func parseConfig(s *cryptobyte.String) (ConfigSpec, error) {
 	if !ss.ReadUint8LengthPrefixed((*cryptobyte.String)(&out.PublicName)) {
 		return out, ErrDecodeError
 	}
+	// Extension extensions<0..2^16-1> ends the contents. The extensions are
+	// not interpreted, but the vector has to be there and well-formed.
+	var exts cryptobyte.String
+	if !ss.ReadUint16LengthPrefixed(&exts) || !ss.Empty() {
+		return out, ErrDecodeError
+	}
+	for !exts.Empty() {
+		var data cryptobyte.String
+		if !exts.Skip(2) || !exts.ReadUint16LengthPrefixed(&data) {
+			return out, ErrDecodeError
+		}
+	}
 	return out, nil
 }
 
